@@ -291,6 +291,7 @@ impl PeerHandler {
 
         let mut keep_alive_timer = self.start_keep_alive_timer();
         let mut sync_stats_timer = self.start_sync_stats_timer();
+        let mut manager_gone = false;
 
         loop {
             #[cfg(feature = "verif")]
@@ -299,10 +300,17 @@ impl PeerHandler {
             tokio::select! {
                 _ = keep_alive_timer.tick() => self.timeout_keep_alive().await?,
                 _ = sync_stats_timer.tick() => self.timeout_sync_stats().await?,
-                Ok(cmd) = self.broad_ch.recv() => {
-                    if self.handle_manager_cmd(cmd).await? == false {
-                        break;
+                cmd = self.broad_ch.recv(), if !manager_gone => match cmd {
+                    Ok(cmd) => {
+                        if self.handle_manager_cmd(cmd).await? == false {
+                            break;
+                        }
                     }
+                    // This task fell so far behind (e.g. stuck in a write to a peer that doesn't
+                    // read) that manager's commands were dropped from the queue: peer would never
+                    // be told about those pieces or about being choked, so end the connection
+                    Err(e @ broadcast::error::RecvError::Lagged(_)) => return Err(e.into()),
+                    Err(broadcast::error::RecvError::Closed) => manager_gone = true,
                 },
                 frame = self.connection.recv_frame() => {
                     if self.handle_frame(frame?).await? == false {
